@@ -188,7 +188,7 @@ impl SubCheck for Positional {
 		"positional"
 	}
 	fn cases(&self, tier: Tier) -> u32 {
-		tier.pick(30_000, 1_000_000)
+		tier.pick(300_000, 6_000_000)
 	}
 	fn strategy(&self, tier: Tier) -> BoxedStrategy<C12Case> {
 		let maxn = tier.pick(5u8, 8);
